@@ -90,23 +90,31 @@ theorem HooksU.toRel (H : HooksU cx P) : HooksRel (vFam cx) P where
   insertLocalVal := H.insertLocalVal
   insertLocalFn := H.insertLocalFn
 
-theorem Sem.HeapU.wok_nil : WOK [] := fun _ h => by cases h
+theorem Sem.HeapU.watOK_watD (cx : HeapU.Cx) (hok : cx.Dok (watD cx)) : WatOK cx (watD cx) :=
+  ⟨fun n hn => by
+    obtain ⟨m, hm, e⟩ := List.mem_map.mp hn
+    cases e
+    exact .inl hm, hok⟩
 theorem Sem.HeapU.noRefB_nil (b : Block) : NoRefB [] b := fun _ h => by cases h
+
+/-- the default proof of `NoRefB (watD cx) b` / `cx.Dok (watD cx)`: contexts that watch nothing -/
+macro "nowat_tac" : tactic => `(tactic| first | trivial | (intro _ h; cases h))
 
 /-- **General form.** A chain of closed-block links between whole programs preserves the observable outcome of a
 run from a self-related initial state — or (only when `cx.upto`) the original exhausts its budget. -/
 theorem Sem.HeapU.chain_runChunk' {b b' : Block} (h : Chain (VkB cx) b b') {N : NumOps} (ρ : ExtOracle N)
     (hρ : OracleFlat ρ) (hCF : ∀ n, cx.CF N ρ n (callClosure ρ n)) (n : Nat) {β : Inj N} {σ0 : State N}
-    (hs : SRel (VQ cx) cx β σ0 σ0) (hur : cx.uptoR = false := by rfl) :
+    (hs : SRel (VQ cx) cx β σ0 σ0) (hur : cx.uptoR = false := by rfl)
+    (hb : NoRefB (watD cx) b := by nowat_tac) (hok : cx.Dok (watD cx) := by nowat_tac) :
     (cx.upto = true ∧ observe (runChunk ρ n b σ0) = .timeout) ∨
       observe (runChunk ρ n b' σ0) = observe (runChunk ρ n b σ0) := by
   induction h with
   | refl => exact .inr rfl
   | @cons a m c hl _ ih =>
-    obtain ⟨⟨D', hvr⟩, _⟩ := hl [] wok_nil (noRefB_nil a)
+    obtain ⟨⟨D', hvr⟩, hm⟩ := hl (watD cx) (watOK_watD cx hok) hb
     rcases runChunk_vr' ρ hρ hCF n hvr hs hur with h1 | h1
     · exact .inl h1
-    · rcases ih with h2 | h2
+    · rcases ih hm with h2 | h2
       · exact .inl ⟨h2.1, by rw [← h1]; exact h2.2⟩
       · exact .inr (h2.trans h1)
 
@@ -114,13 +122,14 @@ theorem Sem.HeapU.chain_runChunk' {b b' : Block} (h : Chain (VkB cx) b b') {N : 
 its budget -/
 theorem Sem.HeapU.chain_runChunkR {b b' : Block} (h : Chain (VkB cx) b b') {N : NumOps} (ρ : ExtOracle N)
     (hρ : OracleFlat ρ) (hCF : ∀ n, cx.CF N ρ n (callClosure ρ n)) (n : Nat) {β : Inj N} {σ0 : State N}
-    (hs : SRel (VQ cx) cx β σ0 σ0) (hu : cx.upto = false := by rfl) :
+    (hs : SRel (VQ cx) cx β σ0 σ0) (hu : cx.upto = false := by rfl)
+    (hb : NoRefB (watD cx) b := by nowat_tac) (hok : cx.Dok (watD cx) := by nowat_tac) :
     observe (runChunk ρ n b' σ0) = .timeout ∨ observe (runChunk ρ n b' σ0) = observe (runChunk ρ n b σ0) := by
   induction h with
   | refl => exact .inr rfl
   | @cons a m c hl _ ih =>
-    obtain ⟨⟨D', hvr⟩, _⟩ := hl [] wok_nil (noRefB_nil a)
-    rcases ih with h2 | h2
+    obtain ⟨⟨D', hvr⟩, hm⟩ := hl (watD cx) (watOK_watD cx hok) hb
+    rcases ih hm with h2 | h2
     · exact .inl h2
     · rcases runChunk_vrR ρ hρ hCF n hvr hs hu with h1 | h1
       · exact .inl (h2.trans h1)
@@ -130,35 +139,49 @@ theorem Sem.HeapU.chain_runProgram {b b' : Block} (h : Chain (VkB cx) b b') {N :
     (hρ : OracleFlat ρ) (n : Nat) (externs : List String)
     (hI : cx.I N initRel (initState externs : State N) (initState externs) := by trivial)
     (hu : cx.upto = false := by rfl) (hCF : ∀ n, cx.CF N ρ n (callClosure ρ n) := by intros; trivial)
-    (hur : cx.uptoR = false := by rfl) :
+    (hur : cx.uptoR = false := by rfl)
+    (hb : NoRefB (watD cx) b := by nowat_tac) (hok : cx.Dok (watD cx) := by nowat_tac)
+    (hG : ∀ p ∈ cx.G N, (initState externs : State N).getGlobal p.1 = p.2 := by nowat_tac)
+    (hF : ∀ p ∈ cx.F, FnGlobal (initState externs : State N) p.1 p.2 := by nowat_tac) :
     runProgram ρ n externs b' = runProgram ρ n externs b := by
-  rcases chain_runChunk' h ρ hρ hCF n (SRel.init (VQ cx) externs hI) hur with ⟨h1, _⟩ | h2
+  rcases chain_runChunk' h ρ hρ hCF n (SRel.init (VQ cx) externs hI hG hF) hur hb hok with ⟨h1, _⟩ | h2
   · rw [hu] at h1; cases h1
   · exact h2
 
 theorem Sem.HeapU.chain_runProgram_upto {b b' : Block} (h : Chain (VkB cx) b b') {N : NumOps} (ρ : ExtOracle N)
     (hρ : OracleFlat ρ) (n : Nat) (externs : List String)
     (hI : cx.I N initRel (initState externs : State N) (initState externs) := by trivial)
-    (hCF : ∀ n, cx.CF N ρ n (callClosure ρ n) := by intros; trivial) (hur : cx.uptoR = false := by rfl) :
+    (hCF : ∀ n, cx.CF N ρ n (callClosure ρ n) := by intros; trivial) (hur : cx.uptoR = false := by rfl)
+    (hb : NoRefB (watD cx) b := by nowat_tac) (hok : cx.Dok (watD cx) := by nowat_tac)
+    (hG : ∀ p ∈ cx.G N, (initState externs : State N).getGlobal p.1 = p.2 := by nowat_tac)
+    (hF : ∀ p ∈ cx.F, FnGlobal (initState externs : State N) p.1 p.2 := by nowat_tac) :
     runProgram ρ n externs b = .timeout ∨ runProgram ρ n externs b' = runProgram ρ n externs b := by
-  rcases chain_runChunk' h ρ hρ hCF n (SRel.init (VQ cx) externs hI) hur with ⟨_, h1⟩ | h2
+  rcases chain_runChunk' h ρ hρ hCF n (SRel.init (VQ cx) externs hI hG hF) hur hb hok with ⟨_, h1⟩ | h2
   · exact .inl h1
   · exact .inr h2
 
 theorem Sem.HeapU.chain_runProgram_uptoR {b b' : Block} (h : Chain (VkB cx) b b') {N : NumOps} (ρ : ExtOracle N)
     (hρ : OracleFlat ρ) (n : Nat) (externs : List String)
     (hI : cx.I N initRel (initState externs : State N) (initState externs) := by trivial)
-    (hCF : ∀ n, cx.CF N ρ n (callClosure ρ n) := by intros; trivial) (hu : cx.upto = false := by rfl) :
+    (hCF : ∀ n, cx.CF N ρ n (callClosure ρ n) := by intros; trivial) (hu : cx.upto = false := by rfl)
+    (hb : NoRefB (watD cx) b := by nowat_tac) (hok : cx.Dok (watD cx) := by nowat_tac)
+    (hG : ∀ p ∈ cx.G N, (initState externs : State N).getGlobal p.1 = p.2 := by nowat_tac)
+    (hF : ∀ p ∈ cx.F, FnGlobal (initState externs : State N) p.1 p.2 := by nowat_tac) :
     runProgram ρ n externs b' = .timeout ∨ runProgram ρ n externs b' = runProgram ρ n externs b :=
-  chain_runChunkR h ρ hρ hCF n (SRel.init (VQ cx) externs hI) hu
+  chain_runChunkR h ρ hρ hCF n (SRel.init (VQ cx) externs hI hG hF) hu hb hok
 
 /-- from any well-formed initial state in which the consumer's invariant holds -/
 theorem Sem.HeapU.chain_runChunk_wf {b b' : Block} (h : Chain (VkB cx) b b') {N : NumOps} (ρ : ExtOracle N)
     (hρ : OracleFlat ρ) (hCF : ∀ n, cx.CF N ρ n (callClosure ρ n)) (n : Nat) {σ0 : State N} (hwf : State.WF σ0)
-    (hI : cx.I N (idRel σ0) σ0 σ0) (hur : cx.uptoR = false := by rfl) :
+    (hI : cx.I N (idRel σ0) σ0 σ0) (hur : cx.uptoR = false := by rfl)
+    (hb : NoRefB (watD cx) b := by nowat_tac) (hok : cx.Dok (watD cx) := by nowat_tac)
+    (hG : ∀ p ∈ cx.G N, σ0.getGlobal p.1 = p.2 := by nowat_tac)
+    (hF : ∀ p ∈ cx.F, FnGlobal σ0 p.1 p.2 := by nowat_tac)
+    (hcl : ∀ c ∈ σ0.closures, NoRefF (watD cx) c.body ∧ ∀ n ∈ cx.W, lookupAssoc n c.env = none := by
+      nowat_tac) :
     (cx.upto = true ∧ observe (runChunk ρ n b σ0) = .timeout) ∨
       observe (runChunk ρ n b' σ0) = observe (runChunk ρ n b σ0) :=
-  chain_runChunk' h ρ hρ hCF n (SRel.ofWF VQ_refl hwf hI) hur
+  chain_runChunk' h ρ hρ hCF n (SRel.ofWF VQ_refl hwf hI hG hF hcl) hur hb hok
 
 theorem Visitor.visit_chain_u (H : HooksU cx P) (sc : Bool) (fuel : Nat) (pushes : Bool) (b : Block) (s : σ) :
     Chain (VkB cx) b (Visitor.visitBlock P sc fuel pushes b s).1 :=
@@ -169,75 +192,102 @@ theorem Visitor.visit_u (H : HooksU cx P) (sc : Bool) (fuel : Nat) (pushes : Boo
     {N : NumOps} (ρ : ExtOracle N) (hρ : OracleFlat ρ) (n : Nat) (externs : List String)
     (hI : cx.I N initRel (initState externs : State N) (initState externs) := by trivial)
     (hu : cx.upto = false := by rfl) (hCF : ∀ n, cx.CF N ρ n (callClosure ρ n) := by intros; trivial)
-    (hur : cx.uptoR = false := by rfl) :
+    (hur : cx.uptoR = false := by rfl)
+    (hb : NoRefB (watD cx) b := by nowat_tac) (hok : cx.Dok (watD cx) := by nowat_tac)
+    (hG : ∀ p ∈ cx.G N, (initState externs : State N).getGlobal p.1 = p.2 := by nowat_tac)
+    (hF : ∀ p ∈ cx.F, FnGlobal (initState externs : State N) p.1 p.2 := by nowat_tac) :
     runProgram ρ n externs (Visitor.visitBlock P sc fuel pushes b s).1 = runProgram ρ n externs b :=
-  chain_runProgram (Visitor.visit_chain_u H sc fuel pushes b s) ρ hρ n externs hI hu hCF hur
+  chain_runProgram (Visitor.visit_chain_u H sc fuel pushes b s) ρ hρ n externs hI hu hCF hur hb hok hG hF
 
 /-- **lifting theorem (up to budget exhaustion of the original)** -/
 theorem Visitor.visit_u_upto (H : HooksU cx P) (sc : Bool) (fuel : Nat) (pushes : Bool) (b : Block) (s : σ)
     {N : NumOps} (ρ : ExtOracle N) (hρ : OracleFlat ρ) (n : Nat) (externs : List String)
     (hI : cx.I N initRel (initState externs : State N) (initState externs) := by trivial)
-    (hCF : ∀ n, cx.CF N ρ n (callClosure ρ n) := by intros; trivial) (hur : cx.uptoR = false := by rfl) :
+    (hCF : ∀ n, cx.CF N ρ n (callClosure ρ n) := by intros; trivial) (hur : cx.uptoR = false := by rfl)
+    (hb : NoRefB (watD cx) b := by nowat_tac) (hok : cx.Dok (watD cx) := by nowat_tac)
+    (hG : ∀ p ∈ cx.G N, (initState externs : State N).getGlobal p.1 = p.2 := by nowat_tac)
+    (hF : ∀ p ∈ cx.F, FnGlobal (initState externs : State N) p.1 p.2 := by nowat_tac) :
     runProgram ρ n externs b = .timeout ∨
       runProgram ρ n externs (Visitor.visitBlock P sc fuel pushes b s).1 = runProgram ρ n externs b :=
-  chain_runProgram_upto (Visitor.visit_chain_u H sc fuel pushes b s) ρ hρ n externs hI hCF hur
+  chain_runProgram_upto (Visitor.visit_chain_u H sc fuel pushes b s) ρ hρ n externs hI hCF hur hb hok hG hF
 
 /-- **lifting theorem (up to budget exhaustion of the REWRITTEN program, `cx.uptoR`)** -/
 theorem Visitor.visit_u_uptoR (H : HooksU cx P) (sc : Bool) (fuel : Nat) (pushes : Bool) (b : Block) (s : σ)
     {N : NumOps} (ρ : ExtOracle N) (hρ : OracleFlat ρ) (n : Nat) (externs : List String)
     (hI : cx.I N initRel (initState externs : State N) (initState externs) := by trivial)
-    (hCF : ∀ n, cx.CF N ρ n (callClosure ρ n) := by intros; trivial) (hu : cx.upto = false := by rfl) :
+    (hCF : ∀ n, cx.CF N ρ n (callClosure ρ n) := by intros; trivial) (hu : cx.upto = false := by rfl)
+    (hb : NoRefB (watD cx) b := by nowat_tac) (hok : cx.Dok (watD cx) := by nowat_tac)
+    (hG : ∀ p ∈ cx.G N, (initState externs : State N).getGlobal p.1 = p.2 := by nowat_tac)
+    (hF : ∀ p ∈ cx.F, FnGlobal (initState externs : State N) p.1 p.2 := by nowat_tac) :
     runProgram ρ n externs (Visitor.visitBlock P sc fuel pushes b s).1 = .timeout ∨
       runProgram ρ n externs (Visitor.visitBlock P sc fuel pushes b s).1 = runProgram ρ n externs b :=
-  chain_runProgram_uptoR (Visitor.visit_chain_u H sc fuel pushes b s) ρ hρ n externs hI hCF hu
+  chain_runProgram_uptoR (Visitor.visit_chain_u H sc fuel pushes b s) ρ hρ n externs hI hCF hu hb hok hG hF
 
 theorem Visitor.runDefault_u_uptoR (H : HooksU cx P) (b : Block) (s : σ) {N : NumOps} (ρ : ExtOracle N)
     (hρ : OracleFlat ρ) (n : Nat) (externs : List String)
     (hI : cx.I N initRel (initState externs : State N) (initState externs) := by trivial)
-    (hCF : ∀ n, cx.CF N ρ n (callClosure ρ n) := by intros; trivial) (hu : cx.upto = false := by rfl) :
+    (hCF : ∀ n, cx.CF N ρ n (callClosure ρ n) := by intros; trivial) (hu : cx.upto = false := by rfl)
+    (hb : NoRefB (watD cx) b := by nowat_tac) (hok : cx.Dok (watD cx) := by nowat_tac)
+    (hG : ∀ p ∈ cx.G N, (initState externs : State N).getGlobal p.1 = p.2 := by nowat_tac)
+    (hF : ∀ p ∈ cx.F, FnGlobal (initState externs : State N) p.1 p.2 := by nowat_tac) :
     runProgram ρ n externs (Visitor.runDefault P b s).1 = .timeout ∨
       runProgram ρ n externs (Visitor.runDefault P b s).1 = runProgram ρ n externs b :=
-  Visitor.visit_u_uptoR H false _ true b s ρ hρ n externs hI hCF hu
+  Visitor.visit_u_uptoR H false _ true b s ρ hρ n externs hI hCF hu hb hok hG hF
 
 theorem Visitor.runScoped_u_uptoR (H : HooksU cx P) (b : Block) (s : σ) {N : NumOps} (ρ : ExtOracle N)
     (hρ : OracleFlat ρ) (n : Nat) (externs : List String)
     (hI : cx.I N initRel (initState externs : State N) (initState externs) := by trivial)
-    (hCF : ∀ n, cx.CF N ρ n (callClosure ρ n) := by intros; trivial) (hu : cx.upto = false := by rfl) :
+    (hCF : ∀ n, cx.CF N ρ n (callClosure ρ n) := by intros; trivial) (hu : cx.upto = false := by rfl)
+    (hb : NoRefB (watD cx) b := by nowat_tac) (hok : cx.Dok (watD cx) := by nowat_tac)
+    (hG : ∀ p ∈ cx.G N, (initState externs : State N).getGlobal p.1 = p.2 := by nowat_tac)
+    (hF : ∀ p ∈ cx.F, FnGlobal (initState externs : State N) p.1 p.2 := by nowat_tac) :
     runProgram ρ n externs (Visitor.runScoped P b s).1 = .timeout ∨
       runProgram ρ n externs (Visitor.runScoped P b s).1 = runProgram ρ n externs b :=
-  Visitor.visit_u_uptoR H true _ true b s ρ hρ n externs hI hCF hu
+  Visitor.visit_u_uptoR H true _ true b s ρ hρ n externs hI hCF hu hb hok hG hF
 
 theorem Visitor.runDefault_u (H : HooksU cx P) (b : Block) (s : σ) {N : NumOps} (ρ : ExtOracle N) (hρ : OracleFlat ρ)
     (n : Nat) (externs : List String)
     (hI : cx.I N initRel (initState externs : State N) (initState externs) := by trivial)
     (hu : cx.upto = false := by rfl) (hCF : ∀ n, cx.CF N ρ n (callClosure ρ n) := by intros; trivial)
-    (hur : cx.uptoR = false := by rfl) :
+    (hur : cx.uptoR = false := by rfl)
+    (hb : NoRefB (watD cx) b := by nowat_tac) (hok : cx.Dok (watD cx) := by nowat_tac)
+    (hG : ∀ p ∈ cx.G N, (initState externs : State N).getGlobal p.1 = p.2 := by nowat_tac)
+    (hF : ∀ p ∈ cx.F, FnGlobal (initState externs : State N) p.1 p.2 := by nowat_tac) :
     runProgram ρ n externs (Visitor.runDefault P b s).1 = runProgram ρ n externs b :=
-  Visitor.visit_u H false _ true b s ρ hρ n externs hI hu hCF hur
+  Visitor.visit_u H false _ true b s ρ hρ n externs hI hu hCF hur hb hok hG hF
 
 theorem Visitor.runScoped_u (H : HooksU cx P) (b : Block) (s : σ) {N : NumOps} (ρ : ExtOracle N) (hρ : OracleFlat ρ)
     (n : Nat) (externs : List String)
     (hI : cx.I N initRel (initState externs : State N) (initState externs) := by trivial)
     (hu : cx.upto = false := by rfl) (hCF : ∀ n, cx.CF N ρ n (callClosure ρ n) := by intros; trivial)
-    (hur : cx.uptoR = false := by rfl) :
+    (hur : cx.uptoR = false := by rfl)
+    (hb : NoRefB (watD cx) b := by nowat_tac) (hok : cx.Dok (watD cx) := by nowat_tac)
+    (hG : ∀ p ∈ cx.G N, (initState externs : State N).getGlobal p.1 = p.2 := by nowat_tac)
+    (hF : ∀ p ∈ cx.F, FnGlobal (initState externs : State N) p.1 p.2 := by nowat_tac) :
     runProgram ρ n externs (Visitor.runScoped P b s).1 = runProgram ρ n externs b :=
-  Visitor.visit_u H true _ true b s ρ hρ n externs hI hu hCF hur
+  Visitor.visit_u H true _ true b s ρ hρ n externs hI hu hCF hur hb hok hG hF
 
 theorem Visitor.runDefault_u_upto (H : HooksU cx P) (b : Block) (s : σ) {N : NumOps} (ρ : ExtOracle N)
     (hρ : OracleFlat ρ) (n : Nat) (externs : List String)
     (hI : cx.I N initRel (initState externs : State N) (initState externs) := by trivial)
-    (hCF : ∀ n, cx.CF N ρ n (callClosure ρ n) := by intros; trivial) (hur : cx.uptoR = false := by rfl) :
+    (hCF : ∀ n, cx.CF N ρ n (callClosure ρ n) := by intros; trivial) (hur : cx.uptoR = false := by rfl)
+    (hb : NoRefB (watD cx) b := by nowat_tac) (hok : cx.Dok (watD cx) := by nowat_tac)
+    (hG : ∀ p ∈ cx.G N, (initState externs : State N).getGlobal p.1 = p.2 := by nowat_tac)
+    (hF : ∀ p ∈ cx.F, FnGlobal (initState externs : State N) p.1 p.2 := by nowat_tac) :
     runProgram ρ n externs b = .timeout ∨
       runProgram ρ n externs (Visitor.runDefault P b s).1 = runProgram ρ n externs b :=
-  Visitor.visit_u_upto H false _ true b s ρ hρ n externs hI hCF hur
+  Visitor.visit_u_upto H false _ true b s ρ hρ n externs hI hCF hur hb hok hG hF
 
 theorem Visitor.runScoped_u_upto (H : HooksU cx P) (b : Block) (s : σ) {N : NumOps} (ρ : ExtOracle N)
     (hρ : OracleFlat ρ) (n : Nat) (externs : List String)
     (hI : cx.I N initRel (initState externs : State N) (initState externs) := by trivial)
-    (hCF : ∀ n, cx.CF N ρ n (callClosure ρ n) := by intros; trivial) (hur : cx.uptoR = false := by rfl) :
+    (hCF : ∀ n, cx.CF N ρ n (callClosure ρ n) := by intros; trivial) (hur : cx.uptoR = false := by rfl)
+    (hb : NoRefB (watD cx) b := by nowat_tac) (hok : cx.Dok (watD cx) := by nowat_tac)
+    (hG : ∀ p ∈ cx.G N, (initState externs : State N).getGlobal p.1 = p.2 := by nowat_tac)
+    (hF : ∀ p ∈ cx.F, FnGlobal (initState externs : State N) p.1 p.2 := by nowat_tac) :
     runProgram ρ n externs b = .timeout ∨
       runProgram ρ n externs (Visitor.runScoped P b s).1 = runProgram ρ n externs b :=
-  Visitor.visit_u_upto H true _ true b s ρ hρ n externs hI hCF hur
+  Visitor.visit_u_upto H true _ true b s ρ hρ n externs hI hCF hur hb hok hG hF
 
 /-! ### exact hooks are unified hooks when they introduce no identifier references -/
 
